@@ -35,7 +35,8 @@ META = {
                    "write, data dependence of the booked amount on the ledger, antitonicity of the remaining-seconds "
                    "function, and dependence of every lowering write on the seconds this task had booked. These are "
                    "necessary conditions of 'never more than the slot length, portions do not overlap'; the sums "
-                   "themselves are runtime quantities and are not decided.",
+                   "themselves are runtime quantities and are not decided."
+                   " Also: read-modify-write shape of every ledger-lowering write, the order table of the partial-slot re-offer, placement of the final-slot portion by the slot ledger in both scheduling directions, unconditional own-record lookup and the all-paths clamp of the seconds used to the seconds booked.",
     "assumptions": ["a predicate call tested in a branch (available) is stable until the guarded write in the same function"],
 }
 
